@@ -66,7 +66,9 @@ def impl_rcv(c):
 
 def impl_mra(c):
     from sageopt.relaxations import symbolic_correspondences as sc
-    env = st.SymEnv(c['sizes'])
+    # `values`: what the Variables hold when the matrix is built (left by an earlier solve: zeros where a multiplier was inactive);
+    # the matrix is a statement about the symbolic coefficients and must not depend on it
+    env = st.SymEnv(c['sizes'], values=c.get('values'))
     s = st.build_sym(c['s'], env)
     h = st.build_sym(c['h'], env)
     L = st.build_sym(c['L'], env)
@@ -177,6 +179,21 @@ def gen_rcv_case(rng, allow_missing):
     ref = rows + extra
     rng.shuffle(ref)
     kind = 'present'
+    if not poly and rng.random() < 0.2:
+        # two DISTINCT exponents of g that differ in the 6th / 7th decimal only (also on large exponents, where the difference is
+        # relatively tiny): each coefficient has its own row
+        base = list(rng.choice(rows))
+        j = rng.randrange(n)
+        if rng.random() < 0.5:
+            base[j] = F(rng.choice([250, -120, 40]))
+        twin = list(base)
+        twin[j] = base[j] + rng.choice([F(1, 10 ** 6), F(3, 10 ** 7), F(-1, 10 ** 7), F(2, 10 ** 5) if abs(base[j]) >= 40 else F(1, 10 ** 6)])
+        rows = [r for r in rows if r != base and r != twin] + [base, twin]
+        cs = [frac_str(F(rng.choice([-3, -1, 1, 2, 5]))) for _ in rows]
+        cs[-1] = frac_str(F(cs[-2]) + 1)
+        ref = rows + [r for r in extra if r not in rows]
+        rng.shuffle(ref)
+        return {'g': leaf(rows, cs, n, poly), 'ref': rows_json(ref), 'kind': 'near-twins'}
     if allow_missing and rng.random() < 0.25 and m >= 2:
         ref.remove(rows[rng.randrange(m)])
         kind = 'missing'
@@ -206,7 +223,10 @@ def gen_mra_cancel_case(rng):
     rng.shuffle(Lrows)
     s = leaf(srows, [{'off': '0', 'co': [[i, '1']]} for i in range(2)], n, poly, sym=True, purevar=0)
     L = leaf(Lrows, [{'off': '0', 'co': [[2 + i, '1']]} for i in range(len(Lrows))], n, poly, sym=True)
-    return {'sizes': [2, len(Lrows)], 's': s, 'h': leaf(hrows, ['1', '-1'], n, poly), 'L': L, 'kind': 'missing-by-cancellation'}
+    out = {'sizes': [2, len(Lrows)], 's': s, 'h': leaf(hrows, ['1', '-1'], n, poly), 'L': L, 'kind': 'missing-by-cancellation'}
+    if rng.random() < 0.5:
+        out['values'] = [rng.choice([0, 0, 1, -2, 0.75, None]) for _ in range(2 + len(Lrows))]
+    return out
 
 
 def gen_mra_case(rng):
@@ -246,7 +266,10 @@ def gen_mra_case(rng):
     sizes[1] = len(Lrows)
     # L's coefficients: one fresh variable per row (as a Lagrangian's coefficients would be affine in the multipliers)
     L = leaf(Lrows, [{'off': frac_str(F(rng.randint(-1, 1))), 'co': [[ms + i, '1']]} for i in range(len(Lrows))], n, poly, sym=True)
-    return {'sizes': sizes, 's': s, 'h': leaf(hrows, hc, n, poly), 'L': L, 'kind': kind}
+    out = {'sizes': sizes, 's': s, 'h': leaf(hrows, hc, n, poly), 'L': L, 'kind': kind}
+    if symbolic and rng.random() < 0.5:
+        out['values'] = [rng.choice([0, 0, 1, -2, 0.75, None]) for _ in range(sum(sizes))]
+    return out
 
 
 def builder_triples(rng, count):
